@@ -185,7 +185,7 @@ func (p *parser) parseBool(n *yaml.Node) *Bool {
 	}
 
 	return &Bool{
-		Value: n.Value == "true",
+		Value: strings.EqualFold(n.Value, "true"), // YAML also spells booleans True and TRUE
 		Pos:   posAt(n),
 	}
 }
